@@ -137,7 +137,34 @@ def rule_e1(ctx):
         for _, t in me:
             ce |= {(r, p) for (r, p) in b.trace_operand(t["args"][1])}
         if cp == ce:
-            res.ok({"construct": name, "condition_origin": sorted(str(x) for x in cp)[:3]})
+            # both merges must also agree on which operand carries the conditionally executed children
+            kind = {"If": "if", "Match": "match", "ShortCircuitAnd": "sc", "ShortCircuitOr": "sc", "JoinLoop": "join"}[name]
+            sig = protocol.Interp(b, C02.SigmaSpec(ctx), succ=succ, observe="SIGMA").run()
+            envr = protocol.Interp(b, EnvSpec(ctx), succ=succ, observe=("A", env_arg(b))).run()
+            cond_sites = {s_ for s_, t_ in sig.mutators.items() if C02._classify(kind, b, t_)} | \
+                         {s_ for s_, t_ in envr.mutators.items() if C02._classify(kind, b, t_)}
+
+            def sides(r):
+                out = set()
+                for site, pairs in r.mux_ops.items():
+                    for (va, vb) in pairs:
+                        a = frozenset(x for x in protocol.reach(va, r) if x in cond_sites)
+                        bb_ = frozenset(x for x in protocol.reach(vb, r) if x in cond_sites)
+                        out.add((a, bb_))
+                return out
+            s_sig, s_env = sides(sig), sides(envr)
+            # compare as sets of (true-operand children, false-operand children), ignoring children that do not touch one of the two records
+            common = set(sig.mutators) & set(envr.mutators)
+
+            def restrict(ss):
+                return {(frozenset(a & common), frozenset(b_ & common)) for (a, b_) in ss}
+            if restrict(s_sig) == restrict(s_env):
+                res.ok({"construct": name, "condition_origin": sorted(str(x) for x in cp)[:3],
+                        "operand_roles": "panic record and environment carry the conditional children in the same operand"})
+            else:
+                res.bad(Finding("E1", b.id, "%s: merge operands in different roles" % name,
+                                "mux_panic and mux_envs disagree about which operand (selected when the condition is set / clear) holds the effects of the conditionally executed code",
+                                me[0][1]["sp"]))
         else:
             res.bad(Finding("E1", b.id, "%s: different merge conditions" % name,
                             "mux_panic is selected by %s but mux_envs by %s" % (sorted(map(str, cp)), sorted(map(str, ce))), me[0][1]["sp"]))
